@@ -5,7 +5,12 @@ from .. import common
 from .. import fam_pipeline as fp
 from .. import pipeline as pl
 
-THEOREMS = ["C01.inserted_name_fresh", "C01.opcode_index_ok", "C01.step_insertQuant", "C01.step_insertDequant", "C01.step_quantizeTensor", "C01.performer_wf", "C01.modify_wf", "C01.quantize_wf", "NFCheckProofs.nfOK_sound"]
+THEOREMS = ["C01.inserted_name_fresh", "C01.opcode_index_ok", "C01.step_insertQuant", "C01.step_insertDequant", "C01.step_quantizeTensor", "C01.performer_wf", "C01.modify_wf", "C01.quantize_wf", "NFCheckProofs.nfOK_sound",
+            # C01b: runtime clause, as far as a type-level table of the kernels goes (ASSUMED table KernelSig.accepts, validated by execution)
+            "C01.kernel_signatures_ok", "C01.kernel_signature_of_op", "C01.unsupported_ops_keep_signature", "C01.inserted_ops_widths",
+            "C01.nonfloat_operand_untouched", "C01.E2E.mixed_modes_table", "C01.E2E.mixed_ops_table", "C01.E2E.instance_ok",
+            "C01.E2E.instance_cast_ok", "C01.E2E.const_data_drq_violates", "C01.E2E.const_data_srq16_violates",
+            "C01.E2E.bmm_const_lhs_drq_violates", "C01.E2E.runtime_weight_srq16_violates"]
 
 
 def run(ctx):
@@ -15,12 +20,17 @@ def run(ctx):
                 "regexes built from the model's tensor names) x random calibration data; every case goes through the real pipeline, the "
                 "graph stage is compared with the Lean model, the returned bytes are checked by an independent well-formedness checker and "
                 "run in a sandboxed interpreter; distinct = distinct (model, recipe) pairs")
-    common.proof_side(ctx, THEOREMS, modules=["QProps.C01", "QProofs.NFCheckProofs"])
+    common.proof_side(ctx, THEOREMS, modules=["QProps.C01", "QProps.C01b", "QProps.C01bOps", "QProofs.NFCheckProofs"])
     drv = common.Driver()
     interp = pl.Interp()
     def per_case(case, res):
         if res["status"] == "ok":
             fp.oracle_c01(ctx, interp, case, res)
+            if res.get("ksig") is False:
+                # C01.kernel_signatures_ok: under NF, FloatModel, DataRuntime and WeightConst16 (which the generator's models satisfy) every
+                # operator of the output has a signature of the kernel table
+                ctx.fail("an operator of the returned model has an operand-type signature outside the kernel table "
+                         + str([x for x in (res["model_resp"].get("ksig_sigs") or []) if x and not x[3]][:2]), case.replay(), "ksig-rejected")
             if ctx.rng.random() < 0.12 and not res.get("policy"):
                 # the large-model serialisation (threshold lowered by the hook) is a path of quantize() like any other: its result must
                 # be a well-formed, loadable model too
